@@ -41,9 +41,22 @@ def check(ctx: Ctx) -> None:
     in_dispatch = any(isinstance(a, ast.If) and "message_type" in src(a.test) for a in ancestors(aug))
     ctx.check(not in_dispatch, "ACC2", f"{fi.qualname}: `{buf} += {m}.time` runs for every message kind", function=fi.qualname,
               construct="delta buffer accumulation depends on the message kind", message="", file=fi.file, node=aug)
+    inits = [s_ for s_ in fi.node.body if s_.lineno < loop.lineno and isinstance(s_, ast.Assign) and any(isinstance(t_, ast.Name) and t_.id == buf for t_ in s_.targets)]
+    ctx.check(len(inits) == 1 and isinstance(inits[0].value, ast.Constant) and inits[0].value.value == 0 and not isinstance(inits[0].value.value, bool), "ACC2",
+              f"{fi.qualname}: `{buf}` starts at 0", function=fi.qualname, construct="delta buffer does not start at 0",
+              message=f"{[short(x) for x in inits]}: the first event of the track is shifted", file=fi.file, node=inits[0] if inits else loop)
     g = next((a for a in ancestors(aug) if isinstance(a, ast.If)), None)
     if g is not None:
-        ok = "is not None" in src(g.test) and "time" in src(g.test)
+        from .c07 import _nnf
+        leaves = list(_nnf(g.test))
+        in_body = any(aug is x for y in g.body for x in ast.walk(y))
+        okl = in_body and bool(leaves)
+        for leaf, neg in leaves:
+            has_time = isinstance(leaf, ast.Call) and isinstance(leaf.func, ast.Name) and leaf.func.id == "hasattr" and not neg
+            not_none = isinstance(leaf, ast.Compare) and isinstance(leaf.comparators[0], ast.Constant) and leaf.comparators[0].value is None \
+                and src(leaf.left) == f"{m}.time" and (isinstance(leaf.ops[0], ast.IsNot) != neg)
+            okl = okl and (has_time or not_none)
+        ok = okl and not any(isinstance(x, ast.BoolOp) and isinstance(x.op, ast.Or) for x in ast.walk(g.test))
         ctx.check(ok, "ACC2", f"{fi.qualname}: accumulation skipped only for messages without a time", function=fi.qualname,
                   construct="delta buffer accumulation guarded by an unrelated condition", message=short(g.test), file=fi.file, node=g)
     for T in p.enum_order("MessageType"):
@@ -81,6 +94,7 @@ def check(ctx: Ctx) -> None:
     # --- KINDS
     rfi, sp, rt = midi.reader_table(p)
     ctx.analysed(rfi)
+    ctx.floor("reader dispatch cases decided", midi.parse_rule(ctx), 18)
     field_map = {
         "NOTE_ON": {"note": "note", "velocity": "velocity"},
         "NOTE_OFF": {"note": "note"},
